@@ -71,7 +71,7 @@ def ptyOf (k : Kind) (a : Act) (row : Nat) : Record.PTy :=
   | .fpoint _ lo hi _ => .point lo hi
   | .intervals _ _ _ => .countOrLog
   | .align _ => .alignFlags
-  | .clip _ => .clipAxes (match k.clipAlias with | some (_, names) => names | none => [])
+  | .clip _ => .clipAxes
 
 def defaultsRec (k : Kind) : Record.Rec := k.dump k.defaults
 
@@ -98,7 +98,6 @@ def step (s : St) (w : List String) : St × String :=
       match s.objs[ki]? with
       | none => (s, "bad-op")
       | some ob =>
-        if name.isEmpty then (s, "bad-op") else
         let src? : Option Src :=
           if val == "null" then some .null
           else if val == "nullstr" then some (.text none)
@@ -109,6 +108,14 @@ def step (s : St) (w : List String) : St × String :=
         | none => (s, "bad-op")
         | some src =>
           let k := ob.kind
+          if name.isEmpty then
+            -- "assign from sibling" with a source that carries no sibling: reset, or refused without change
+            let out := k.setEmptyName ob.m src
+            let dm := fmtDump (k.dump out.obj)
+            let alts := [("refused", fmtDump ob.s), ("ok", fmtDump (defaultsRec k))]
+            ((s.setObj ki { ob with m := out.obj, s := if out.ret.isOk then defaultsRec k else ob.s }),
+             line (if out.ret.isOk then "ok" else "refused") dm (fmtRet out.ret) alts)
+          else
           let out := k.setProp Gen.colors ob.m name src s.tok
           -- S: refusal without change, or the named property takes the denoted value
           let okAlts : List Record.Rec :=
